@@ -543,7 +543,8 @@ def check_struct(ctx, case, res):
                 r3 = cli([os.path.join(d, 'catb'), top], cwd=d, env=scrub_env({'TMPDIR': os.path.join(d, 'wtmp')}))
                 res.execs += 1
                 ext = top.rsplit('.', 1)[-1]
-                wf = ext if ext in ('json', 'yaml', 'toml') and (ext != 'toml' or pf) else None
+                allmaps = vals is not None and all(isinstance(x, dict) for x in vals)        # TOML cannot express a non-map document (not judged)
+                wf = ext if ext in ('json', 'yaml', 'toml') and (ext != 'toml' or allmaps) else None
                 if not judge_cli(res, r3, 'bklb (as catb)', wf, must_fail=(r.rc != 0), detail={'layers': layers, 'file_format': inf}):
                     return res
                 if r.rc == 0 and r3.rc != 0:
